@@ -1221,6 +1221,8 @@ class C14(Check):
                     elif kind == "packet":
                         uid += 1
                         st = [t, "packet", f"p{r.randint(1, 2)}" if still else f"p{uid}"]
+                        if r.random() < 0.12:
+                            st[2] = ""          # an empty payload (a heartbeat) is a packet like any other (seeded C14_L)
                     else:
                         pos = r.choice(spots) if still else \
                             (float(r.randint(-20, 20)), float(r.randint(-20, 20)), float(r.randint(0, 9)))
